@@ -8,6 +8,19 @@ NOTES = ("Every check: (1) regenerates any Gen/*.lean from /repo, (2) lake-build
 NOT_YET = {}
 
 CHECKS = {
+    "C01": {
+        "text": "Lean theorems about an interleaving transition system of the RPC call life cycle (one object, one peer connection, "
+                "unboundedly many calls/callers, removal / stop of either context / disconnect / serialisation faults at any point): "
+                "at_most_once, own_outcome (every configuration); no_loss_partial (carrier invariant), calls_complete_partial "
+                "(quiescent => every call has its outcome), activity_terminates (measure), object_survives_partial for the repaired "
+                "configuration with the client context not stopped; decide-checked hang witnesses for each loss path of the pinned tree. "
+                "Tie: real contexts under a deterministic scheduler + simulated network; observed outcome vectors must lie in the "
+                "model's terminal set (Lean driver explores the model exhaustively per scenario); fault swept over every yield index.",
+        "note": "Trusted: Lean kernel + 3 axioms; scheduler/simnet harness; model atomicity follows the code's locks and is validated by "
+                "outcome-set inclusion (bounded, per scenario); pickle/asyncio/OS sockets modelled; model config bits are probed on the "
+                "current source. Liveness is proved in the `_partial` form; the full form is false on the pinned tree (5 known findings).",
+        "technique": "Lean 4 proof (inductive invariants + termination measure over an interleaving model) + outcome-set correspondence under a deterministic scheduler",
+    },
     "C09": {
         "text": "Lean theorems (induction over all op sequences, all capacities ≥ 1, both policies): len_le_cap, queue_sorted, "
                 "seq_strict_mono_out, accounting (permutation of range next), gap_is_lost/gap_count, policy_old/new, getNext_total. "
